@@ -359,6 +359,9 @@ func (a agentProc) Send(_ *actor.PID, msg any, _ *actor.PID) {
 	}
 }
 
+// provGate keeps the provider busy (inside its middleware) until rel is closed.
+type provGate struct{ in, rel chan struct{} }
+
 type provHarness struct {
 	mu       sync.Mutex
 	cond     *sync.Cond
@@ -417,6 +420,10 @@ func runProv(c ProvCase) (feat map[string]int, err error) {
 	mw := func(next actor.ReceiveFunc) actor.ReceiveFunc {
 		return func(c *actor.Context) {
 			typ := fmt.Sprintf("%T", c.Message())
+			if g, ok := c.Message().(provGate); ok {
+				close(g.in)
+				<-g.rel
+			}
 			defer func() {
 				h.mu.Lock()
 				h.handled[typ]++
@@ -536,6 +543,45 @@ func runProv(c ProvCase) (feat map[string]int, err error) {
 			if len(model) > 32 {
 				feat["more-than-32-members"]++
 			}
+		case "racejoin":
+			// the provider is busy; a peer's handshake is waiting in its inbox; the peer's address is
+			// reported unreachable.  In the order of arrival: added, then removed.
+			if op.M < 1 || op.M >= len(kindsOf) {
+				return nil, nil
+			}
+			g := provGate{make(chan struct{}), make(chan struct{})}
+			e.Send(prov, g)
+			select {
+			case <-g.in:
+			case <-time.After(wait):
+				return nil, fmt.Errorf("%w: the provider never reached the gate", errInconclusive)
+			}
+			hm := member(op.M)
+			if model[op.M] {
+				hm.Host = hostOf[op.M]
+			}
+			hostOf[op.M] = hm.Host
+			hs++
+			e.SendWithSender(prov, &cluster.Handshake{Member: hm}, probe)
+			leaves++
+			e.BroadcastEvent(actor.RemoteUnreachableEvent{ListenAddr: hm.Host})
+			if err := h.waitHandled("child:actor.RemoteUnreachableEvent", leaves); err != nil {
+				close(g.rel)
+				return nil, err
+			}
+			close(g.rel)
+			if err := h.waitHandled("*cluster.Handshake", hs); err != nil {
+				return nil, err
+			}
+			for i := range model {
+				if i != 0 && hostOf[i] == hm.Host {
+					delete(model, i)
+					removedOnce[i] = true
+				}
+			}
+			delete(model, op.M)
+			removedOnce[op.M] = true
+			feat["unreachable-report-while-the-handshake-waits-in-the-inbox"]++
 		case "unreachable":
 			addr := op.A
 			if op.M > 0 {
@@ -619,8 +665,10 @@ func TestProvider(t *testing.T) {
 		c := ProvCase{}
 		n := rapid.IntRange(1, 12).Draw(t, "ops")
 		for i := 0; i < n; i++ {
-			op := POp{K: rapid.SampledFrom([]string{"handshake", "handshake", "handshake", "members", "members", "unreachable", "unreachable", "unreachable", "bulk"}).Draw(t, "k")}
+			op := POp{K: rapid.SampledFrom([]string{"handshake", "handshake", "handshake", "members", "members", "unreachable", "unreachable", "unreachable", "bulk", "racejoin"}).Draw(t, "k")}
 			switch op.K {
+			case "racejoin":
+				op.M = rapid.IntRange(1, len(kindsOf)-1).Draw(t, "m")
 			case "bulk":
 				op.N = rapid.SampledFrom([]int{3, 31, 33, 40, 64, 75}).Draw(t, "n")
 			case "handshake":
